@@ -67,7 +67,6 @@ HARNESSES = {
     "u04_exid_try_from_total_q": {"crate": "automerge", "file": EXID, "fn": "ExId::try_from(&[u8])", "mode": "bounded", "bound": "all inputs of <= 6 bytes", "timeout_s": 900},
     "u04_exid_try_from_total_t": {"crate": "automerge", "file": EXID, "fn": "ExId::try_from(&[u8])", "mode": "bounded", "bound": "all inputs of <= 12 bytes", "tier": "thorough", "timeout_s": 2400},
     "u04_cursor_from_str_total_q": {"crate": "automerge", "file": CURSOR, "fn": "Cursor::from_str", "mode": "bounded", "bound": "all UTF-8 strings of <= 3 bytes without an '@' (contains the empty string and non-ASCII first characters; stops before the hex decoding of the actor)", "timeout_s": 900},
-    "u04_cursor_from_str_total_t": {"crate": "automerge", "file": CURSOR, "fn": "Cursor::from_str", "mode": "bounded", "bound": "all UTF-8 strings of <= 3 bytes", "tier": "thorough", "timeout_s": 3600},
     # ---- U05 sync codecs
     "u05_flags_roundtrip": {"crate": "automerge", "file": "rust/automerge/src/sync.rs", "fn": "MessageFlags::encode, MessageFlags::parse_bytes", "mode": "complete", "bound": "all 7-bit flag values (loops bounded by the 3-byte section)"},
     "u05_flags_set_contains": {"crate": "automerge", "file": "rust/automerge/src/sync.rs", "fn": "MessageFlags::set, MessageFlags::contains, MessageFlags::new", "mode": "complete", "bound": "all u8 x single-bit flags (loop-free)"},
@@ -216,8 +215,8 @@ PROPERTIES.update({
         "level": "proof",
         "verus": [("u02_parse", "*"), ("u01_bloom", ["parse", "get_probes", "contains_hash", "add_hash", "set_bit"]), ("u04_ids", ["exid_to_opid", "op_cursor_to_opid", "new"]),
                   ("u04c_codecs", ["try_from", "parse_0"]), ("u06v_hexane_str", "*")],
-        "kani": ["u06_codec_reads_agree", "u01_parse_wf_quick", "u01_parse_wf_thorough", "u01_query_total", "u03_header_parse_q", "u03_header_parse_t", "u03_chunktype_codes",
-                 "u04_exid_try_from_total_q", "u04_exid_try_from_total_t", "u04_cursor_from_str_total_q", "u04_cursor_from_str_total_t",
+        "kani": ["u02k_length_prefixed_total", "u02k_apply_n_total", "u06_codec_reads_agree", "u01_parse_wf_quick", "u01_parse_wf_thorough", "u01_query_total", "u03_header_parse_q", "u03_header_parse_t", "u03_chunktype_codes",
+                 "u04_exid_try_from_total_q", "u04_exid_try_from_total_t", "u04_cursor_from_str_total_q",
                  "u05_flags_parse_bytes",
                  "u06_int_unpack_total", "u06_narrow_unpack_total", "u06_string_unpack_q", "u06_string_unpack_t", "u06_string_unpack_huge_len",
                  "u06_rle_segment_total_u64", "u06_rle_segment_total_i64", "u06_rle_segment_utf8"],
